@@ -631,12 +631,12 @@ pub fn handle_xreadgroup(storage: &Arc<StorageEngine>, db: usize, parts: &[RespF
         
         // Parse the ID
         let after_id = if id_str == ">" {
-            StreamId::max() // Special marker for new entries only
+            None // New entries only
         } else if id_str == "0" || id_str == "0-0" {
-            StreamId::new(0, 0)
+            Some(StreamId::new(0, 0))
         } else {
             match StreamId::from_string(&id_str) {
-                Some(id) => id,
+                Some(id) => Some(id),
                 None => return Ok(RespFrame::error("ERR Invalid stream ID specified")),
             }
         };
